@@ -11,6 +11,9 @@ Expression nodes (tuples):
   ('log', op, a, b) ('not', e) ('tern', c, a, b) ('macro', name, args, ty) ('call', name, args, ty)
   ('post', var, op) ('stmtexpr', tyname, ty, var, e) ('load', tyname, ty, signch, width)
   ('seqexpr', name, [ext tokens], [args], val)      ({ name(exts..., args...); val; })  -- name: a void sub-routine
+  ('callx', name, [ext tokens], [args], ty)         name(exts..., args...) used as a value (XCALLS: get_usr_field, get_npc, fcirc_add);
+                                                    a register token among the ext tokens (`RxV`) is handed over by reference
+  ('xmacro', name, [ext tokens], ty)                name(exts...), a plugin macro of pass-through tokens (get_corresponding_CS(pkt, MuV))
 Statement nodes:
   ('decl', tyname, ty, var, e|None) ('assign', lhs_expr, op, e) ('store', width, addr_expr|None, e)
   ('if', c, [stmts], [stmts]|None) ('for', var, bound_expr, [stmts]) ('jump', e) ('raw', text)
@@ -53,6 +56,20 @@ CALLS = [("clo32", [(False, 32)], (False, 32)), ("clz32", [(False, 32)], (False,
 # registered sub-routines with return type void: (name, number of pass-through (external) parameters, value parameter types)
 VOID_CALLS = [("set_usr_field", 2, [(False, 32)]), ("trap", 0, [(True, 32), (False, 32)])]
 VOID_PARAMS = {n: ps for n, _, ps in VOID_CALLS}
+# value calls with pass-through arguments in front: (name, number of pass-through parameters, value parameter types, return type)
+XCALLS = [("get_usr_field", 2, [], (False, 32)), ("get_npc", 1, [], (False, 32)),
+          ("fcirc_add", 2, [(True, 32), (True, 32), (True, 32)], (True, 32))]
+XCALL_SIGS = {n: (k, ps, rt) for n, k, ps, rt in XCALLS}
+# plugin macros all of whose arguments are pass-through tokens: name -> (number of tokens, return type)
+XMACROS = {"get_corresponding_CS": (2, (True, 32))}
+
+
+def ext_token(t: str) -> str:
+    """the text the compiler prints for a pass-through token: a register operand becomes its operand variable"""
+    m = re.fullmatch(r"([A-Z][a-z]{1,2})V", t)
+    return m.group(1) + "_op" if m else t
+
+
 MACROS = [("sextract64", 3, (True, 64)), ("extract64", 3, (False, 64)), ("extract32", 3, (False, 32)),
           ("deposit32", 4, (False, 32)), ("deposit64", 4, (False, 64)), ("bswap32", 1, (False, 32)), ("bswap16", 1, (False, 16)),
           ("bswap64", 1, (False, 64))]
@@ -102,6 +119,10 @@ def ctype(e):
         return e[2]
     if k == "seqexpr":
         return ctype(e[4])
+    if k == "callx":
+        return e[4]
+    if k == "xmacro":
+        return e[3]
     raise ValueError(k)
 
 
@@ -137,6 +158,10 @@ def src(e) -> str:
         return f"(({e[1]})mem_load_{e[3]}{e[4]}(EA))"
     if k == "seqexpr":
         return f"({{ {e[1]}({', '.join(list(e[2]) + [src(a) for a in e[3]])}); {src(e[4])}; }})"
+    if k == "callx":
+        return f"{e[1]}({', '.join(list(e[2]) + [src(a) for a in e[3]])})"
+    if k == "xmacro":
+        return f"{e[1]}({', '.join(e[2])})"
     raise ValueError(k)
 
 
@@ -326,6 +351,11 @@ def expr_features(e, out: set, ctx="value"):
             if _conv_risky(ctype(a), pt):
                 out.add("signed_widen_to_unsigned")
         expr_features(e[4], out)
+    elif k == "callx":
+        for a, pt in zip(e[3], XCALL_SIGS[e[1]][1]):
+            expr_features(a, out)
+            if _conv_risky(ctype(a), pt):
+                out.add("signed_widen_to_unsigned")
     return out
 
 
@@ -349,7 +379,7 @@ def folds(e) -> bool:
 
 def _has_hybrid(e) -> bool:
     k = e[0]
-    if k in ("call", "post", "stmtexpr", "seqexpr"):
+    if k in ("call", "post", "stmtexpr", "seqexpr", "callx"):
         return True
     for x in e[1:]:
         if isinstance(x, tuple) and x and isinstance(x[0], str) and x[0] in _EXPR_KINDS and _has_hybrid(x):
@@ -361,7 +391,7 @@ def _has_hybrid(e) -> bool:
     return False
 
 
-_EXPR_KINDS = {"reg", "imm", "lit", "var", "cast", "un", "bin", "shift", "cmp", "log", "not", "tern", "macro", "call", "post", "stmtexpr", "load", "seqexpr"}
+_EXPR_KINDS = {"reg", "imm", "lit", "var", "cast", "un", "bin", "shift", "cmp", "log", "not", "tern", "macro", "call", "post", "stmtexpr", "load", "seqexpr", "callx", "xmacro"}
 
 
 def _bare_stmtexprs(e, under_tern_arm=False) -> bool:
